@@ -1,15 +1,4 @@
-mod campaign;
-mod env;
-mod layout;
-mod model;
-mod ops;
-mod props;
-mod seq;
-mod trace;
-mod crash;
-mod sched;
-mod lin;
-mod conc;
+use fxvlib::{env, props};
 
 use env::Tier;
 
